@@ -74,7 +74,7 @@ def exec_case(case):
 
 
 def run(ctx):
-    ctx.rule = ("case = generated classes/structs (py/ts/js/rs) with member mixes and LOC padded around the limits x (max_methods, max_loc, check_keywords, "
+    ctx.rule = ("evaluations = srp runs + class verdicts; case = generated classes/structs (py/ts/js/rs) with member mixes and LOC padded around the limits x (max_methods, max_loc, check_keywords, "
                 "keywords, per-language overrides); distinct non-trivial = (language, methods-vs-limit delta, loc-vs-limit delta, keyword hit, override present)")
     ctx.assumptions = ["ground truth from the renderer: public methods = regular/static/class/async; LOC = non-blank, non-comment lines from header to end",
                        "TS getters/setters, #private members, Rust trait impls, Rust non-pub methods without underscore, Python docstrings and decorated classes are not generated (documentation silent)",
@@ -109,6 +109,7 @@ def run(ctx):
                     continue
                 by_name.setdefault(m.group(1), []).append((r[1], m.group(2)))
             for c in fx:
+                ctx.evaluations += 1  # one verdict per generated class (the run itself was counted once above)
                 ctx.count("classes:%s" % lang)
                 kw_hit = case["check_kw"] and any(k.lower() in c["name"].lower() for k in kws)
                 kw_exact = case["check_kw"] and any(k in c["name"] for k in kws)
